@@ -401,4 +401,24 @@ MUTANTS = [
      "        if not getattr(self, \"_seen\", False):\n            self._model.state = model_state\n            self._seen = True\n\n        for node in self._model.nodes.values():"),
     ("C03-namedtuple-interface-ignores-position", "liesel/goose/interface.py",
      "        new_state = model_state._replace(**position)\n", "        new_state = model_state._replace(**{k: v for k, v in list(position.items())[:1]})\n"),
+    # ------------------------------------------------------------------ C20
+    ("C20-full-window-check-loosened", "liesel/goose/optim.py",
+     "        current_i_is_after_patience = i > p\n", "        current_i_is_after_patience = i > p // 2\n"),
+    ("C20-newest-loss-taken-as-oldest", "liesel/goose/optim.py",
+     "        oldest_loss_in_recent = recent_history[0]\n", "        oldest_loss_in_recent = recent_history[-1]\n"),
+    ("C20-best-index-off-by-one", "liesel/goose/optim.py",
+     "        return i - self.patience + imin + 1\n", "        return i - self.patience + imin\n"),
+    ("C20-nan-padding-starts-one-early", "liesel/goose/optim.py",
+     '        val["history"]["loss_validation"].at[(max_iter + 1) :].set(jnp.nan)\n', '        val["history"]["loss_validation"].at[max_iter:].set(jnp.nan)\n'),
+    ("C20-final-state-from-last-position", "liesel/goose/optim.py",
+     "    final_state = interface_train.update_state(final_position, model_train.state)\n",
+     "    final_state = interface_train.update_state(val[\"position\"], model_train.state)\n"),
+    ("C20-relative-tolerance-uses-oldest", "liesel/goose/optim.py",
+     "        rel_diff = diff / jnp.abs(best_loss_in_recent)\n", "        rel_diff = diff / jnp.abs(oldest_loss_in_recent)\n"),
+    ("C20-max-iter-off-by-one", "liesel/goose/optim.py",
+     "        stop_max_iter = i >= (self.max_iter - 1)\n", "        stop_max_iter = i >= (self.max_iter - 2)\n"),
+    ("C20-restored-patience-forgotten", "liesel/goose/optim.py",
+     "    stopper.patience = user_patience\n", ""),
+    ("C20-batches-from-fixed-fraction", "liesel/goose/optim.py",
+     "    shuffled_indices = jax.random.permutation(key, n)\n", "    shuffled_indices = jnp.roll(jnp.arange(n), jax.random.randint(key, (), 0, 2))\n"),
 ]
